@@ -1398,7 +1398,7 @@ def median_of_labels(image, labels, indices):
     median[evens] += image[middle_low[evens] + 1]
     median[evens] /= 2
     median[counts == 0] = np.nan
-    return median
+    return median[anti_indices[indices]]
 
 
 def farthest_from_edge(labels, indices):
